@@ -156,6 +156,12 @@ pub enum Fault {
     BadPos,
     /// VCF line with GT `0/x`
     BadGt,
+    /// raw BCF stream that ends inside a record (at least 8 bytes into it)
+    TruncatedBcf,
+    /// the same truncated BCF stream, BGZF-compressed (the BGZF layer itself is intact)
+    TruncatedBgzfBcf,
+    /// VCF text that ends inside a record line, before the FORMAT column
+    TruncatedVcfLine,
 }
 
 #[derive(Clone, Debug, Serialize, Deserialize)]
@@ -171,7 +177,7 @@ fn sweep_strategy() -> impl Strategy<Value = SweepCase> {
     (
         base_strategy(8),
         container_strategy(),
-        prop_oneof![2 => Just(Fault::Ploidy), 1 => Just(Fault::TruncatedColumns), 1 => Just(Fault::BadPos), 1 => Just(Fault::BadGt)],
+        prop_oneof![2 => Just(Fault::Ploidy), 1 => Just(Fault::TruncatedColumns), 1 => Just(Fault::BadPos), 1 => Just(Fault::BadGt), 1 => Just(Fault::TruncatedBcf), 1 => Just(Fault::TruncatedBgzfBcf), 1 => Just(Fault::TruncatedVcfLine)],
         prop::bool::weighted(0.3),
     )
         .prop_map(|((cs, map), container, fault, strict)| SweepCase {
@@ -231,6 +237,43 @@ fn eval_sweep(ctx: &Ctx, case: &SweepCase) -> Verdict {
                 };
                 let r = &cs.records[first];
                 (run, argv, Some((cs.contigs[r.contig].clone(), r.pos)))
+            }
+            Fault::TruncatedBcf | Fault::TruncatedBgzfBcf | Fault::TruncatedVcfLine => {
+                // the stream ends inside record `at` (needs at least one record; `at` indexes it)
+                if n == 0 || at >= n {
+                    continue;
+                }
+                let (bytes, ext): (Vec<u8>, &str) = match case.fault {
+                    Fault::TruncatedVcfLine => {
+                        let mut text = case.cs.vcf_header();
+                        for r in &case.cs.records[..at] {
+                            text.push_str(&r.vcf_line(&case.cs));
+                            text.push('\n');
+                        }
+                        let line = case.cs.records[at].vcf_line(&case.cs);
+                        let tabs: Vec<usize> = line.match_indices('\t').map(|(i, _)| i).collect();
+                        // keep 2..=7 complete columns
+                        let keep = 2 + (case.cs.records[at].pos as usize + at) % 6;
+                        text.push_str(&line[..tabs[keep - 1]]);
+                        (text.into_bytes(), "vcf")
+                    }
+                    _ => {
+                        let (raw, offsets) = crate::gen::bcf::to_bcf(&case.cs);
+                        let start = offsets[at];
+                        let end = if at + 1 < n { offsets[at + 1] } else { raw.len() };
+                        let span = end - start - 8;
+                        let cut = start + 8 + ((case.cs.records[at].pos as usize).wrapping_mul(31) + at) % span;
+                        let cut = if (case.cs.records[at].pos + at as u64) % 5 == 0 { end - 1 } else { cut };
+                        let truncated = raw[..cut].to_vec();
+                        if case.fault == Fault::TruncatedBgzfBcf {
+                            (crate::gen::bgzf::compress(&truncated, &crate::gen::bgzf::Layout::plain()).0, "bcf")
+                        } else {
+                            (truncated, "raw.bcf")
+                        }
+                    }
+                };
+                let (run, argv) = run_create_bytes(ctx, &dir, "c10s", &case.cs, &bytes, ext, &opts, Transport::Path);
+                (run, argv, None)
             }
             Fault::TruncatedColumns | Fault::BadPos | Fault::BadGt => {
                 let mut lines: Vec<String> = case.cs.records.iter().map(|r| r.vcf_line(&case.cs)).collect();
@@ -292,6 +335,18 @@ pub fn fresh_record(n_samples: usize) -> crate::gen::callset::Record {
     }
 }
 
+fn eval_large(ctx: &Ctx, case: &crate::props::c02::Case) -> Verdict {
+    let converted = Case {
+        cs: case.cs.clone(),
+        map: case.map.clone(),
+        container: case.container.clone(),
+        mode: Mode::Project { m: case.m.clone() },
+    };
+    let mut pass = eval(ctx, &converted)?;
+    pass.add_label(format!("samples>={}", (case.cs.samples.len() / 100) * 100));
+    Ok(pass)
+}
+
 pub fn check(ctx: &Ctx) -> Check {
     let parts: Vec<Box<dyn Part>> = vec![
         Box::new(RandomPart {
@@ -302,9 +357,16 @@ pub fn check(ctx: &Ctx) -> Check {
             eval: Box::new(eval),
         }),
         Box::new(RandomPart {
+            name: "conservation-large-cohort",
+            rule: "the conservation invariant with projection on cohorts of 86..700 samples (the ln-gamma path of the hypergeometric weights, beyond the 170! table and beyond f64 binomials): mass + skipped == records within cells*0.5e-12 + 1e-9 N at --precision 12",
+            cases: ctx.tier.pick(64, 600),
+            strategy: Box::new(|| crate::props::c02::large_strategy().boxed()),
+            eval: Box::new(eval_large),
+        }),
+        Box::new(RandomPart {
             name: "fault-sweep",
-            rule: "a fault (non-diploid genotype in a selected sample in any container; VCF line with truncated columns, non-numeric POS, GT `0/x`) placed at EVERY record position 0..=N of generated call sets with skippable and countable records before and after, with and without --strict: exit != 0, diagnostic, empty stdout; ploidy faults must name contig and position of the first failing record (an earlier skipped record under --strict); non-trivial = a fault at a position > 0",
-            cases: ctx.tier.pick(200, 2000),
+            rule: "a fault (non-diploid genotype in a selected sample in any container; VCF line with truncated columns, non-numeric POS, GT `0/x`; a raw or BGZF-compressed BCF stream ending inside the record; VCF text ending inside the record line) placed at EVERY record position 0..=N of generated call sets with skippable and countable records before and after, with and without --strict: exit != 0, diagnostic, empty stdout; ploidy faults must name contig and position of the first failing record (an earlier skipped record under --strict); non-trivial = a fault at a position > 0",
+            cases: ctx.tier.pick(500, 5000),
             strategy: Box::new(|| sweep_strategy().boxed()),
             eval: Box::new(eval_sweep),
         }),
